@@ -573,7 +573,7 @@ theorem mem_dedupNames {x : Name} {l : List Name} : x ∈ dedupNames l ↔ x ∈
 
 /-- No Vid occurs twice in the query (`IndexedQuery::try_from` refuses anything else; inside one
 component the vertices are a `BTreeMap` keyed by Vid). -/
-def VidsDistinct (ir : IRQuery) : Prop := (allVids ir).Nodup
+def VidsDistinct (ir : IRQuery) : Prop := (IRQuery.allVids ir).Nodup
 
 instance (ir : IRQuery) : Decidable (VidsDistinct ir) := inferInstanceAs (Decidable (List.Nodup _))
 
